@@ -31,6 +31,8 @@ class EvalInterp(Interp):
 
     def _compare(self, args, node):
         self.events.append(('compare', tuple(args)))
+        if getattr(self, 'free_compare', False):
+            return 0
         if self.cmp_operands is None:
             raise Unrecognised(self.rule, 'value_compare called in a scenario without operands', self.mod.rel)
         L, R = self.cmp_operands
@@ -41,7 +43,7 @@ class EvalInterp(Interp):
         raise Unrecognised(self.rule, f'value_compare called with {args!r}', self.mod.rel)
 
     def builtin_hook(self, name, args, e):
-        if name == 'isinstance' and args and isinstance(args[0], Sym) and args[0].kind == 'val' and len(args[0].args) > 2:
+        if name == 'isinstance' and args and isinstance(args[0], Sym) and args[0].kind in ('val', 'result') and len(args[0].args) > 2:
             from .atoms import CLASS_NAMES, INSTANCE_OF
             atom = args[0].args[2]
             classes = [norm(x) for x in (e.args[1].elts if isinstance(e.args[1], ast.Tuple) else [e.args[1]])]
@@ -86,7 +88,7 @@ class EvalInterp(Interp):
                                 'same-options' if (len(args) > 1 and args[1] is self.options) else 'other-options'))
             b = self.behaviour.get(tag, 'ok')
             if b == 'ok':
-                return Sym('result', tag, self.truths.get(tag, True))
+                return Sym('result', tag, self.truths.get(tag, True), 'float')
             cls = {'va': 'ValueArgsError', 'err': 'TypeError', 'rt': 'BareScriptRuntimeError', 'pe': 'BareScriptParserError'}[b]
             raise RaiseSig(cls, (Sym('message', tag),), e)
         return NotImplemented
@@ -191,7 +193,7 @@ def reference(expr, locals_, globals_, builtin_names, builtins, behaviour, truth
             events.append(('call', tag, tuple(vals)))
             b = behaviour.get(tag, 'ok')
             if b == 'ok':
-                return Sym('result', tag, truths.get(tag, True))
+                return Sym('result', tag, truths.get(tag, True), 'float')
             if b == 'rt':
                 raise RefRaise('BareScriptRuntimeError')
             if debug == 'on':
@@ -279,6 +281,11 @@ def scenarios():
                 Lv, Rv = Sym('val', 'L', True, a1), Sym('val', 'R', True, a2)
                 out.append(('relational', f'l {op} r with l: {a1}, r: {a2}, value_compare(l, r) = {c}', {'binary': {'op': op, 'left': V('l'), 'right': V('r')}},
                             None, {'l': Lv, 'r': Rv}, {}, True, {'__cmp__': c}, {}, 'on'))
+    # O: both operands of every binary operator are evaluated exactly once, left before right - also when the left value already decides the result (null, wrong type)
+    for op in ('+', '-', '*', '/', '%', '**', '==', '!=', '<', '<=', '>', '>='):
+        for ldesc, lexpr in (('null', V('null')), ('a string', {'string': 's'}), ('the result of g()', F('g')), ('true', V('true'))):
+            out.append(('once', f'{show(lexpr)} {op} f()  (left operand is {ldesc})', {'binary': {'op': op, 'left': lexpr, 'right': F('f')}}, None, G, {}, True, {'__cmp__': 0}, {}, 'on'))
+    out.append(('once', 'f() + g() * h()', {'binary': {'op': '+', 'left': F('f'), 'right': {'binary': {'op': '*', 'left': F('g'), 'right': F('h')}}}}, None, G, {}, True, {'__cmp__': 0}, {}, 'on'))
     # E: the call wrapper
     for b, bdesc in (('ok', 'returns'), ('va', 'raises ValueArgsError'), ('err', 'raises TypeError'), ('rt', 'raises BareScriptRuntimeError'), ('pe', 'raises BareScriptParserError')):
         for debug in ('on', 'off', 'nolog', 'noopts-globals'):
@@ -305,9 +312,29 @@ def run_all(repo, rule='E6e'):
         if cat == 'relational':
             it.cmp_result = behaviour['__cmp__']
             it.cmp_operands = (glob['l'], glob['r'])
+        it.free_compare = cat == 'once'
         a_expr = build(expr)
         a_loc = build(loc) if loc is not None else None
         a_glob = build(glob) if glob is not None else None
+        if cat == 'once':
+            def calls(e):
+                (k, v), = e.items()
+                if k == 'function':
+                    return [c for a in v.get('args', []) for c in calls(a)] + [v['name']]
+                if k == 'binary':
+                    return calls(v['left']) + calls(v['right'])
+                return []
+            try:
+                got = it.evaluate(func, a_expr, a_loc, a_glob, flag, debug)
+            except HostTruth:
+                got = None
+            except Unrecognised as exc:
+                problems.setdefault('once-undecided', []).append((desc, str(exc)[:120], None))
+                continue
+            seq = [e[1] for e in it.events if e[0] == 'call']
+            if seq != calls(expr):
+                problems.setdefault(cat, []).append((desc, f'calls {seq}; every operand is evaluated exactly once, left to right: {calls(expr)}', None))
+            continue
         if cat == 'relational':
             c = behaviour['__cmp__']
             op = expr['binary']['op']
@@ -381,6 +408,10 @@ def report(chk, rule_by_cat, what):
         counts[cat] = counts.get(cat, 0) + 1
     for cat, rule in rule_by_cat.items():
         items = problems.get(cat, [])
+        und = problems.get(cat + '-undecided', [])
+        if und:
+            chk.note(f'{rule}: {len(und)} of {counts.get(cat, 0)} `{cat}` scenarios not decided (outside the interpreted subset), e.g. {und[0][0]}: {und[0][1]}')
+            counts[cat] = counts.get(cat, 0) - len(und)
         if cat == 'truth':
             for desc, msg, node in items[:2]:
                 chk.bad(rule, mod, 'evaluate_expression', f'scenario: {desc}', f'abstract evaluation of `{desc}`: {msg}', node=node)
